@@ -179,14 +179,36 @@ def exit_classes(u):
 
 
 def run_verus_unit(prop, u, workdir, variant="main"):
-    """assemble + verify one unit variant.  returns a result dict."""
+    """assemble + verify one unit variant; if rustc cannot find a called function, retry once with that helper
+    auto-extracted under the contract `result == its own body` (rule R20, expression-bodied helpers only)."""
+    res = _run_verus_unit(prop, u, workdir, variant, ())
+    if res.get("status") == "tool-error" and res.get("info"):
+        missing = sorted(set(re.findall(r"cannot find function `(\w+)` in this scope", res.get("stderr", ""))))
+        files = sorted({i["file"] for i in res["info"]["items"]})
+        extra = []
+        for nm in missing:
+            with ASSEMBLE_LOCK:
+                d = extract.auto_helper_directives(REPO, files, nm)
+            if d is None:
+                return res
+            extra.extend(d)
+        if extra:
+            res2 = _run_verus_unit(prop, u, workdir, variant, tuple(extra))
+            if res2.get("info"):
+                res2["info"]["rewrites"].append({"rule": "R20-auto-helper", "before": "call to unlisted helper(s) %s" % ", ".join(missing),
+                                                  "after": "extracted with contract `result == own body`: " + " | ".join(extra), "where": "unit-level rule"})
+            return res2
+    return res
+
+
+def _run_verus_unit(prop, u, workdir, variant, extra):
     unit = u["unit"]
     tpl = os.path.join(VERIF, "units", unit + ".vrs")
     t0 = time.time()
     res = {"unit": unit, "variant": variant, "status": None, "errors": [], "backend": "verus/z3"}
     try:
         with ASSEMBLE_LOCK:
-            text, info = extract.assemble(tpl, REPO, variant=("main" if variant.startswith("seed:") else variant))
+            text, info = extract.assemble(tpl, REPO, variant=("main" if variant.startswith("seed:") else variant), extra=extra)
     except extract.Lost as e:
         res.update(status="lost-anchor", detail=str(e), wall_s=time.time() - t0)
         return res
